@@ -1,0 +1,17 @@
+//go:build verif
+
+// Contracts for the verification machinery in /verif (comment-only; compiled only with -tags verif).
+package stdlib
+
+// ---- C46: the Cadence-facing RLP wrappers fail only with their user error type (or a metering error);
+// no Go run-time panic and no internal error, whatever the input bytes.
+//@ func RLPDecodeString
+//@   mode bv
+//@   props C46
+//@   nofail
+//@   env RLPDecodeStringError MemoryMeteringError ComputationMeteringError
+//@ func RLPDecodeList
+//@   mode bv
+//@   props C46
+//@   nofail
+//@   env RLPDecodeListError MemoryMeteringError ComputationMeteringError
